@@ -103,6 +103,21 @@ func focusedPathPredicateShapes() []string {
 	return out
 }
 
+// focusedStringLiteralShapes: string predicates and equalities whose literal contains the characters LIKE treats specially (backslash, %, _)
+// and quotes; the emitted pattern must escape them so that the SQL matches exactly the raw string the Cypher predicate compares with.
+func focusedStringLiteralShapes() []string {
+	var out []string
+	lits := []string{`'C:\\U'`, `'C:\\Users\\'`, `'\\'`, `'\\bob'`, `'s\\bob'`, `':\\U'`, `'a%b'`, `'%'`, `'a%'`, `'a_b'`, `'_'`, `'a_'`, `'it\'s'`, `'\''`, `'x'`, `''`}
+	for _, l := range lits {
+		for _, op := range []string{"starts with", "ends with", "contains", "="} {
+			out = append(out, "match (n) where n.name "+op+" "+l+" return n")
+			out = append(out, "match (n) where not n.name "+op+" "+l+" return id(n)")
+		}
+		out = append(out, "match (a)-[r]->(b) where r.name contains "+l+" return a, r, b")
+	}
+	return out
+}
+
 // focusedWithShapes: renamings inside one WITH — fresh names, identity, shadowing, swaps and rotations, with and without a following clause.
 func focusedWithShapes() []string {
 	var out []string
